@@ -208,6 +208,21 @@ func parseContractFile(path, pkgPath string) (*ContractFile, error) {
 				lastSp = sp
 				curLem = nil
 			}
+		case "dyncall":
+			// dyncall <param> ensures <expr> | dyncall <param> pure : assumed contract of a function-valued parameter
+			callee, r2 := splitWord(rest)
+			kw, r3 := splitWord(r2)
+			if cur == nil || (kw != "ensures" && kw != "pure") {
+				return nil, fmt.Errorf("%s:%d: expected 'dyncall <param> ensures <expr>' or 'dyncall <param> pure'", path, ln+1)
+			}
+			c := &Clause{Kind: "dyncall-" + kw, Name: callee, Line: ln + 1, File: path, Text: r3}
+			if kw == "pure" {
+				c.Text = "true"
+			}
+			lastCl = c
+			lastSp = nil
+			pending = append(pending, c)
+			cur.Clauses = append(cur.Clauses, c)
 		case "after":
 			// after <callee> assume <expr>: assumed call-site contract
 			callee, r2 := splitWord(rest)
